@@ -161,7 +161,7 @@ var c10Starts = []string{
 
 func c10(c *Ctx) {
 	rep := c.Rep
-	nGames := c.Size(480, 20000)
+	nGames := c.Size(480, 160000)
 	sampled := 0
 	for i := 0; i < nGames; i++ {
 		if !c.Mine(i) {
@@ -296,7 +296,7 @@ func c10material(c *Ctx) {
 	rep := c.Rep
 	ms := multisets(matKinds, 3)
 	idx := 0
-	perSig := c.Size(3, 12)
+	perSig := c.Size(3, 40)
 	for _, w := range ms {
 		for _, b := range ms {
 			idx++
